@@ -113,6 +113,7 @@ def r1_paired_fields(ctx):
         want = {"int": [f"self._data[self._keys[{k}]]"], "str": [f"self._data[{k}]"], "other hashable": [f"self._data[{k}]"]}
         ctx.check(rows == want, PT, "ParameterTable.__getitem__", "positional access goes through the key list", detail=rows, expected=want)
     si = ctx.fn(PT, "ParameterTable.__setitem__")
+    _mode_tests(ctx)
     ctx.form("self.append(key, values)" in norm(si), PT, "ParameterTable.__setitem__", "item assignment is append (same paired update)")
     ks = ctx.fn(PT, "ParameterTable.keys")
     ctx.form("return self._keys" in norm(ks), PT, "ParameterTable.keys", "keys() reports the key list")
@@ -124,7 +125,32 @@ def r1_paired_fields(ctx):
              "initial parameters are inserted through append in their given order")
 
 
-def _column_iterations(fn, mode_array):
+def _mode_tests(ctx):
+    """The table is keyed when `_keys` is a list - also an empty one - and positional when it is None.  Every test that
+    consults only `_keys` is folded for the three cells None / [] / ['a']: an empty keyed table must take the branch
+    of a non-empty keyed table (a truthiness test would treat it as positional: `'x' in table` raises, append() of the
+    first record mis-files it)."""
+    from .common import concrete_truth
+    c = ctx.repo.cls(PT, "ParameterTable")
+    n = 0
+    for mname, fn in methods(c).items():
+        for t in ast.walk(fn):
+            test = t.test if isinstance(t, (ast.If, ast.IfExp, ast.While, ast.Assert)) else None
+            if test is None or "self._keys" not in norm(test):
+                continue
+            cells = {k: concrete_truth(test, {"self._keys": v}) for k, v in (("None", None), ("[]", []), ("['a']", ["a"]))}
+            if None in cells.values():
+                continue
+            n += 1
+            what = "storage mode is decided by `_keys is None`, never by emptiness"
+            if cells["[]"] == cells["['a']"]:
+                ctx.holds(PT, f"ParameterTable.{mname}", what, detail=norm(test))
+            else:
+                ctx.violated(PT, f"ParameterTable.{mname}", what, detail={norm(test): cells}, expected="an empty keyed table takes the keyed branch")
+    ctx.floor("mode tests on _keys", n, 8, file=PT)
+
+
+def _column_iterations(fn, mode_array, extra=None):
     """Iteration paths of the loops over self._columns that are consistent with the storage mode.
     -> list of (loop, index token or None, name token, [resolved effect expressions])"""
     from ..flowexpr import consistent, explore
@@ -138,7 +164,9 @@ def _column_iterations(fn, mode_array):
                                 for i in iters):
             continue
         from ..flowexpr import truth
-        atom = lambda e: {"self._array": mode_array, "self._array is False": not mode_array, "self._array is True": mode_array}.get(norm(e))   # noqa: E731
+        table = {"self._array": mode_array, "self._array is False": not mode_array, "self._array is True": mode_array}
+        table.update(extra or {})
+        atom = lambda e: table.get(norm(e))   # noqa: E731
         cs = []
         for q in its:
             ok = True
@@ -221,6 +249,29 @@ def r2_row_collector(ctx):
         else:
             ctx.violated(RC, "RowCollector.sort", what, detail={"returns without permuting under": [f"{g} is {v}" for g, v in guards]},
                          expected="append() changes the rows without touching any such flag")
+    # the order flag reaches the index vector in both storage modes: under `reverse` every column is indexed with the
+    # reversed vector, otherwise with the vector itself (decided per (mode, flag) cell on the iteration paths consistent with it)
+    rv = so.args.args[2].arg if len(so.args.args) > 2 else None
+    Vr = f"np.argsort(getattr(self, {arg}))"
+    for mode in (True, False) if rv else ():
+        for flag in (True, False):
+            cell = f"{'array' if mode else 'list'} mode, {rv}={flag}"
+            what = "the order flag is honoured in both storage modes"
+            try:
+                its = _column_iterations(so, mode, {rv: flag, f"not {rv}": not flag, f"{rv} is True": flag, f"{rv} is False": not flag})
+            except (Unrecognised, AnalysisError) as e:
+                ctx.unrecognised(RC, "RowCollector.sort", what, f"{cell}: {e}")
+                continue
+            effs = {norm(x) for _lp, _i, nm_, eff, _b in its for x in eff}
+            rev = [x for x in effs if Vr + "[::-1]" in x]
+            fwd = [x for x in effs if Vr in x and Vr + "[::-1]" not in x]
+            if not effs or (not rev and not fwd) or (rev and fwd):
+                ctx.form(False, RC, "RowCollector.sort", what, detail={cell: sorted(effs)[:2]})
+            elif bool(rev) == flag:
+                ctx.holds(RC, "RowCollector.sort", what, detail=cell)
+            else:
+                ctx.violated(RC, "RowCollector.sort", what, detail={cell: sorted(effs)[0][:140]},
+                             expected=f"indexed with {Vr}{'[::-1]' if flag else ''}")
     for mode in (True, False):
         name = "array" if mode else "list"
         try:
